@@ -1,10 +1,10 @@
-\* thorough: every tree <= 3 nodes over 2 prefix-related names, modes {unset, 0644} x every mtime class
+\* thorough: every tree <= 3 nodes over 2 prefix-related names, modes {unset, 0644} x mtimes {unset, secs+nanos}
 SPECIFICATION Spec
 CONSTANTS Names <- NamesSmall
           Types <- TypesAll
           Bodies = {"x"}
           Modes <- ModesTwo
-          Mtimes <- MtimesAll
+          Mtimes <- MtimesTwo
           MaxNodes = 3
           MaxDepth = 3
           MinNodes = 3
